@@ -139,6 +139,14 @@ fn build_member(idx: usize, n: usize, x: usize, cfg: &Value, picker: &mut Picker
         pc_gens.g_base_vec[1] = pc_gens.g_base_vec[0] * Scalar::from(2u8);
         pc_gens.g_base_compressed_vec[1] = pc_gens.g_base_vec[1].compress();
     }
+    if let Some(i) = cfg["g1_shift"].as_u64() {
+        // blinding generator 1 moved by i*D (D a fixed point): three statements i = 0, 1, 2 that differ ONLY in that generator
+        if x >= 2 && i > 0 {
+            let d = curve25519_dalek::constants::RISTRETTO_BASEPOINT_POINT * Scalar::from(7u8);
+            pc_gens.g_base_vec[1] = pc_gens.g_base_vec[1] + d * Scalar::from(i);
+            pc_gens.g_base_compressed_vec[1] = pc_gens.g_base_vec[1].compress();
+        }
+    }
     let params = RangeParameters::init(n, cap, pc_gens).expect("RangeParameters::init");
     for r in [0u64, 1, n as u64, m as u64, x as u64, cap as u64, 2, 3, 4, 5, 6, 8, 16, 32, 64] {
         if !picker.used.contains(&r) {
@@ -484,8 +492,27 @@ fn run_batch(cfg: &Value) -> Value {
                 None => Value::Null,
             });
         }
+        // three members whose statements differ only in blinding generator 1 (g1_shift = 0, 1, 2) and whose commitment does not use it: the
+        // blinding parts of A satisfy  A_2 - A_0 == 2 (A_1 - A_0)  exactly when all three runs drew the SAME alpha
+        let mut lin = Value::Null;
+        if members.len() == 3 && members_cfg.iter().enumerate().all(|(i, mc)| mc["g1_shift"].as_u64() == Some(i as u64)) {
+            let pts: Vec<Option<RistrettoPoint>> = (0..3)
+                .map(|i| {
+                    prove_out[i]["a_blind"].as_str().and_then(|h| {
+                        let mut b = [0u8; 32];
+                        for k in 0..32 {
+                            b[k] = u8::from_str_radix(&h[2 * k..2 * k + 2], 16).ok()?;
+                        }
+                        curve25519_dalek::ristretto::CompressedRistretto(b).decompress()
+                    })
+                })
+                .collect();
+            if let (Some(a0), Some(a1), Some(a2)) = (pts[0], pts[1], pts[2]) {
+                lin = json!((a2 - a0) == (a1 - a0) * Scalar::from(2u8) && a1 != a0);
+            }
+        }
         return json!({"members": members.iter().map(|m| m.info.clone()).collect::<Vec<_>>(), "prove": prove_out, "weight_attack": wa, "public_nonce_guess": guesses,
-            "opened_final_masks": opened, "verify": Value::Null});
+            "opened_final_masks": opened, "generator_linearity": lin, "verify": Value::Null});
     }
     #[cfg(not(feature = "model"))]
     if cfg["reference_prover"].as_bool().unwrap_or(false) {
